@@ -37,6 +37,15 @@ leave separate holes, so the dead-ratio trigger (1/8) never fires and the number
 with touching holes) x removal orders (ascending, descending, from both ends) x entry points (remove, pop(i), pop(-i),
 discard, -= 16 at a time); after every step len, s[i] / index around the hole, the ends and the middle, and around the
 typical thresholds every 6th position (all at the end), iteration, reversed and slices are compared with a plain list.
+
+Directed supplement 2 (both tiers, non-exhaustive): bulk set operations on sets of 23 .. 513 items (powers of two and
+3 * powers of two +-1, int constants of the module +-1; thorough: up to 2049, and 1000), with and without tombstones:
+every in-place form (update, *_update, |= &= -= ^=; the named ones also with two operands) and every non-mutating form
+(named, operator, reflected operator, predicates) x operand type x share of self's items the operand holds (none, a few,
+just under half, half, most, all; prefix / suffix / scattered).  After an in-place form the object the operation was
+APPLIED TO (not only the object the operator hands back) must hold the result - `s &= o` is in-place as with a set.
+Reflected operators (`other | s`, `other & s`, `other ^ s`) are ordered like the forward ones: first appearance in the
+IndexedSet, then in the other operand.
 """
 import itertools
 import signal
@@ -788,6 +797,10 @@ class Spec:
 MIXED = (2, 3, 1, 'a', None)
 
 
+# one item under several spellings: the list and the set agree that 1, 1.0 and True are the same item
+EQUAL_ACROSS_TYPES = (0, 1, 2, 1.0, True)
+
+
 def configs(tier):
     """(factor, preload, domain, depth)"""
     nat = native_factor()
@@ -797,6 +810,8 @@ def configs(tier):
            (2, 0, base, 4 if q else 6),       # compaction when more than half of the slots are dead
            (nat, 0, base, 8),                 # 5 items never keep a tombstone at factor 8: finite space, fixpoint
            (nat, 0, MIXED, 8)]                # mutually unorderable items: sorts that fail part-way
+    # items that are equal across types (1 == 1.0 == True: three distinct items under five spellings)
+    out += [(nat, 0, EQUAL_ACROSS_TYPES, 8), (1, 0, EQUAL_ACROSS_TYPES, 4 if q else 5)]
     if not q:
         out.append((1, 0, MIXED, 4))
 
@@ -1045,7 +1060,7 @@ def bulk_sizes(tier):
     """Set sizes: powers of two and 3 * powers of two, +-1 (typical thresholds of "large set" fast paths), every int
     constant of the module under test in that range +-1, and two round numbers."""
     top = 512 if tier == 'quick' else 2048
-    out = {100, 1000}
+    out = {100} if tier == 'quick' else {100, 1000}
     for base in (1, 3):
         t = base
         while t <= top:
@@ -1102,6 +1117,17 @@ def bulk_variants(n):
 
 def bulk_case(case, report):
     """One bulk operation on a fresh native-scale set.  report(sig, case, expected, observed).  -> evaluations"""
+    try:
+        with cpu_budget(CPU_BUDGET):
+            return _bulk_case(case, report)
+    except Hang:
+        report('C11|directed:bulk|setup-hang', case, 'terminates', 'CPU budget exceeded')
+    except Exception as e:
+        report('C11|directed:bulk|setup-raised', case, 'no exception', 'raised %s' % type(e).__name__)
+    return 1
+
+
+def _bulk_case(case, report):
     su = SU()
     su._COMPACTION_FACTOR = native_factor()
     IS = su.IndexedSet
@@ -1340,7 +1366,7 @@ def run(ctx):
     cov['exhaustive'] = all(r.fixpoint for _, r in parts)
     cov['exhaustive_below_depth_bound'] = True
     cov['read_battery_visits'] = visits
-    cov['bounds'] = {'items': 5, 'item_types': 'ints; one domain of mutually unorderable items (ints, str, None)', 'compaction_factors': sorted({c[0] for c in configs(ctx.tier)}),
+    cov['bounds'] = {'items': 5, 'item_types': 'ints; one domain of mutually unorderable items (ints, str, None); one of items equal across types (1, 1.0, True)', 'compaction_factors': sorted({c[0] for c in configs(ctx.tier)}),
                      'preloads': sorted({c[1] for c in configs(ctx.tier)}),
                      'slices': 'i, j in [-n-1, n+1] or None; step None, 1..n+1 (n <= 8) else None, 2',
                      'set_algebra_operands': '0, 1, 2 operands from a pool of 12 (every type, two value sets)',
